@@ -33,6 +33,8 @@
    D  it is added/removed when handlers start/stop     | C06_added_removed_on_matching, C06_requires_iff (match for spawning
       requiring (matching) the object                  |   handlers minus forever_stopped, prematch for changing handlers),
                                                        |   C06_never_added_while_deleting, C06_dedicated_pass;
+      ("requires" = exists a matching mandatory deletion     |   C06_requires_order_independent, C06_decision_order_independent,
+      handler or a matching daemon/timer, in any order)   |   C06_requires_monotone (no handler can veto), C06_optional_first_nonvacuous;
                                                        |   request level: C06_add_request_while_deleting_refuted /
                                                        |   C06_add_while_deleting_partial (harmless: the server refuses)
    E  finalizers owned by others are never added,      | C06_foreign_untouched (all label sequences, all configurations),
@@ -381,3 +383,30 @@ Theorem C06_released_after_timeouts_nonvacuous :
     (10 + fd_or0 (d_backoff fd_ex_h) <= fd_age (f_now s + 1) (f_w s))%Z /\ fl_daemon_live (p_daemon (fb s)) = true.
 Proof. exact fd_ex_released_hyps. Qed.
 Print Assumptions C06_released_after_timeouts_nonvacuous.
+
+(* ---------- clause D: "requires" is order-independent and cannot be vetoed ---------- *)
+From Coq Require Import Sorting.Permutation.
+
+(* the three aggregates, and with them the whole decision of a pass, are the same for every order of registration *)
+Theorem C06_requires_order_independent : forall sp sp' ch ch', Permutation sp sp' -> Permutation ch ch' ->
+  fz_spawn_requires sp = fz_spawn_requires sp' /\ fz_chg_requires ch = fz_chg_requires ch' /\ fz_chg_prematch ch = fz_chg_prematch ch'.
+Proof. exact fz_requires_order_independent. Qed.
+Print Assumptions C06_requires_order_independent.
+
+Theorem C06_decision_order_independent : forall a sp sp' ch ch', Permutation sp sp' -> Permutation ch ch' ->
+  fz_decide (fz_with_handlers a (Some sp) (Some ch)) = fz_decide (fz_with_handlers a (Some sp') (Some ch')).
+Proof. exact fz_decide_order_independent. Qed.
+Print Assumptions C06_decision_order_independent.
+
+(* more registrations (optional deletion handlers included) never turn "required" into "not required" *)
+Theorem C06_requires_monotone : forall sp sp' ch ch', incl sp sp' -> incl ch ch' ->
+  (fz_spawn_requires sp = true -> fz_spawn_requires sp' = true) /\ (fz_chg_requires ch = true -> fz_chg_requires ch' = true).
+Proof. exact fz_requires_monotone. Qed.
+Print Assumptions C06_requires_monotone.
+
+(* non-vacuity: optional before mandatory, both matching: required in both orders; added when absent, kept when present *)
+Theorem C06_optional_first_nonvacuous : fz_chg_requires [fz_ex_opt; fz_ex_del] = true /\ fz_chg_requires [fz_ex_del; fz_ex_opt] = true /\
+  o_fns (fz_decide (fz_ex_atoms [] [fz_ex_opt; fz_ex_del] false false [] [])) = [FBlock] /\
+  o_fns (fz_decide (fz_ex_atoms [] [fz_ex_opt; fz_ex_del] true false [] [])) = [].
+Proof. exact fz_ex_optional_first. Qed.
+Print Assumptions C06_optional_first_nonvacuous.
